@@ -14,7 +14,7 @@ import (
 // C09 — names bound inside for / function / partial / contentOf / block-with-
 // context scopes never leak or clobber. Reference: an environment chain.
 
-var c09Kinds = []string{"for", "fn", "partial", "contentOf", "blockWith", "contentOf-replayed-in-for", "contentOf-replayed-in-fn", "contentOf-twice", "partial-without-data-twice"}
+var c09Kinds = []string{"for", "fn", "partial", "contentOf", "blockWith", "contentOf-replayed-in-for", "contentOf-replayed-in-fn", "contentOf-twice", "partial-without-data-twice", "partial-same-data-map-twice"}
 var c09Names = []string{"a", "b", "c"}
 
 type c09Gen struct {
@@ -157,7 +157,7 @@ func (g *c09Gen) construct(shape []string, level int) string {
 		body := g.seq(shape[1:], level+1)
 		g.exp.WriteString(")")
 		return fmt.Sprintf("<%% let fn%d = fn(%s) { %%>(%s)<%% } %%><%%= fn%d(%s) %%>", id, n, body, id, c09Lit(v))
-	case "contentOf-twice", "partial-without-data-twice":
+	case "contentOf-twice", "partial-without-data-twice", "partial-same-data-map-twice":
 		// the same block / partial is rendered twice with different (or no)
 		// data: the second rendering starts from the outer scope again and sees
 		// nothing the first one bound
@@ -183,6 +183,13 @@ func (g *c09Gen) construct(shape []string, level int) string {
 			body1, exp1 = render(map[string]string{n: v}, "«", "»")
 			body2, exp2 = render(map[string]string{n2: v2}, "«", "»")
 			src = fmt.Sprintf("<%% contentFor(\"c%d\") { %%>«%s»<%% } %%><%%= contentOf(\"c%d\", {%s: %s}) %%><%%= contentOf(\"c%d\", {%s: %s}) %%>", id, body1, id, n, c09Lit(v), id, n2, c09Lit(v2))
+		} else if kind == "partial-same-data-map-twice" {
+			// the data is a map that outlives the call: what the first rendering binds is not in it afterwards
+			body1, exp1 = render(map[string]string{n: v}, "<", ">")
+			body2, exp2 = render(map[string]string{n: v}, "<", ">")
+			name := fmt.Sprintf("p%d", id)
+			g.partials[name] = "<" + body1 + ">"
+			src = fmt.Sprintf("<%% let opts%d = {%s: %s} %%><%%= partial(\"%s\", opts%d) %%><%%= partial(\"%s\", opts%d) %%>", id, n, c09Lit(v), name, id, name, id)
 		} else {
 			body1, exp1 = render(map[string]string{}, "<", ">")
 			body2, exp2 = render(map[string]string{}, "<", ">")
@@ -399,7 +406,7 @@ func init() {
 	core.Register(&core.Prop{
 		ID:         "C09",
 		Level:      "exploration",
-		Rule:       "all 819 nestings of depth 1-3 of {for, user-function call (with and without parameters), partial with data, contentFor+contentOf with data, block helper running its block with a new context plus data, contentFor declared outside and replayed by contentOf inside a for body / inside a function body, one block rendered by two contentOf calls with different data, one partial rendered twice without data}; at every level random let statements (fresh and shadowing) and probes of the names a, b, c before, inside and after each construct, binders (loop variable, parameter, data key) drawn from names that may shadow outer ones, unique value tokens; 40 (quick) / 4000 (thorough) random placements per nesting, every third with a sibling construct. Oracle: an environment-chain reference model (construct pushes a scope, let binds innermost, lookup walks outward, exit pops) predicts every probe. Non-trivial = every program (distinct by hash).",
+		Rule:       "all 1110 nestings of depth 1-3 of {partial rendered twice with one data map held in a variable, for, user-function call (with and without parameters), partial with data, contentFor+contentOf with data, block helper running its block with a new context plus data, contentFor declared outside and replayed by contentOf inside a for body / inside a function body, one block rendered by two contentOf calls with different data, one partial rendered twice without data}; at every level random let statements (fresh and shadowing) and probes of the names a, b, c before, inside and after each construct, binders (loop variable, parameter, data key) drawn from names that may shadow outer ones, unique value tokens; 40 (quick) / 4000 (thorough) random placements per nesting, every third with a sibling construct. Oracle: an environment-chain reference model (construct pushes a scope, let binds innermost, lookup walks outward, exit pops) predicts every probe. Non-trivial = every program (distinct by hash).",
 		Assume:     []string{"loops have one iteration (whether a let of iteration 1 is visible at the start of iteration 2 is unspecified)", "functions are called where they are defined, so static and dynamic visibility of outer names coincide", "plain assignment to outer variables is not generated"},
 		Batches:    batchesQT(8, 32),
 		Run:        c09Run,
